@@ -1577,6 +1577,18 @@ def c10(tier):
         rep.neg_controls.append({"spec_mutant": bug, "expected_violation": inv, "found": found})
         if not found:
             raise ToolTrouble("spec mutant %s not detected" % bug)
+    # the loop behind Release (StreamDrain.tla): lands on the record boundary for every short-read behaviour of the source, never
+    # overruns, and TERMINATES (liveness, weak fairness) - with an error when the stream was cut short
+    r = vlib.tlc_mc("StreamDrain.tla", "MC_StreamDrain.cfg", wd, timeout=300, tag="mc-drain")
+    rep.add_mc(r, "MC_StreamDrain.cfg")
+    if r["error"]:
+        rep.spec_violation(r, "MC_StreamDrain.cfg")
+    for bug, inv in (("stop_on_short", "LandsOnBoundary"), ("count_requested", "LandsOnBoundary"), ("loop_on_eof", "Temporal properties were violated")):
+        r = vlib.tlc_run("StreamDrain.tla", "MC_StreamDrain_%s.cfg" % bug, wd, timeout=300, tag="mc-drain-" + bug)
+        found = inv in r["out"] or ("Terminates" in r["out"] and "violated" in r["out"] and bug == "loop_on_eof")
+        rep.neg_controls.append({"spec_mutant": "drain:" + bug, "expected_violation": inv, "found": found})
+        if not found:
+            raise ToolTrouble("spec mutant %s of the drain loop not detected" % bug)
     sd = vlib.seed()
     rnd = random.Random(sd * 4447 + 10)
     scs = []
